@@ -315,7 +315,8 @@ def read_str_null(reader: io.BytesIO) -> bytes:
     data = b""
     while True:
         b = reader.read(1)
-        if b == b"\x00":
+        # End of input also terminates the string; otherwise this would spin forever
+        if b == b"\x00" or not b:
             return data
         data += b
 
